@@ -414,7 +414,7 @@ Proof.
   unfold mutate_value, value_oids. destruct v as [sh ps]. cbn [v_shape v_parts].
   destruct sh as [|p|p]; try reflexivity.
   do 3 (try (destruct p as [p|p|]; try reflexivity));
-    destruct ps as [|[o c] [|[o2 c2] r2]]; reflexivity.
+    destruct ps as [|[o c] [|[o2 c2] [|[o3 c3] r3]]]; reflexivity.
 Qed.
 
 Definition dict_oids (d : list (Z * value)) : list Z := flat_map (fun p => value_oids (snd p)) d.
@@ -726,8 +726,9 @@ Proof.
   intros Hp Hk.
   assert (E0 : (next =? 0) = false) by (apply Z.eqb_neq; lia).
   assert (E1 : (next + 1 =? 0) = false) by (apply Z.eqb_neq; lia).
+  assert (E1' : (next + 2 =? 0) = false) by (apply Z.eqb_neq; lia).
   unfold default_value, value_like. destruct (t_kind t); try congruence;
-    cbn [fst v_shape v_parts parts_like]; rewrite ?E0, ?E1, ?zlist_eqb_refl; cbn; (split; [reflexivity | discriminate]).
+    cbn [fst v_shape v_parts parts_like]; rewrite ?E0, ?E1, ?E1', ?zlist_eqb_refl; cbn; (split; [reflexivity | discriminate]).
 Qed.
 
 Lemma default_value_nodup t next : 0 < next -> znodup (value_oids (fst (default_value t next))) = true.
@@ -736,8 +737,11 @@ Proof.
   assert (E0 : (next =? 0) = false) by (apply Z.eqb_neq; lia).
   assert (E1 : (next + 1 =? 0) = false) by (apply Z.eqb_neq; lia).
   assert (E2 : (next =? next + 1) = false) by (apply Z.eqb_neq; lia).
+  assert (E1' : (next + 2 =? 0) = false) by (apply Z.eqb_neq; lia).
+  assert (E3 : (next =? next + 2) = false) by (apply Z.eqb_neq; lia).
+  assert (E4 : (next + 1 =? next + 2) = false) by (apply Z.eqb_neq; lia).
   unfold default_value, value_oids. destruct (t_kind t); cbn [fst v_parts map filter fst];
-    rewrite ?E0, ?E1; cbn [negb filter znodup zmem existsb andb orb]; rewrite ?E2; reflexivity.
+    rewrite ?E0, ?E1, ?E1'; cbn [negb filter znodup zmem existsb andb orb]; rewrite ?E2, ?E3, ?E4; reflexivity.
 Qed.
 
 (* the clauses that do not depend on the kind of operation *)
